@@ -90,30 +90,36 @@ Theorem C16_liveness_response_partial : forall c lat t0 t st id tr,
                  (now_p - ft <= c_arrive c - c_slack c)%Z.
 Proof. exact fetcher_response_request. Qed.
 
-(* LIVENESS, end to end, from environment hypotheses only.  A trace from the start of the loop in which
-   item [id] is announced (and reported interesting) at time t:
-     - the clock is nondecreasing                                   [clock_ok]
-     - timer fairness with latency lat                              [fair_run]
-     - the announces cache is large enough for everything the trace announces, so nothing is evicted
-                                                                    [2 * announced_count <= HashLimit]
+(* LIVENESS, end to end.  A trace from the start of the loop in which item [id] is announced (and reported
+   interesting) at time t:
+     - the clock is nondecreasing                                                   [clock_ok]
+     - timer fairness with latency lat and bounded overtaking k: a due timer is delivered by due + lat;
+       once its value is in the channel the loop may still take up to k other events (Go's select picks
+       at random among ready channels), each within lat, before it takes the pass         [fair_run_k]
+     - the announces cache has room for every batch at the moment it is processed
+       (table size + 2 * batch <= HashLimit at each ENotify), so nothing is evicted        [cap_ok]
      - every announcement of the item in the trace is younger than ForgetTimeout until the bound
        (the loop forgets an item by its OLDEST recorded announcement, so all of them count)
      - afterwards the item is reported interesting at every pass and is never reported received
      - the trace goes on beyond the bound
-   Then a request for the item is emitted at some time t' with
-        t <= t' <= t + 2*ArriveTimeout - GatherSlack + 2*lat.
+   Then a request for the item is EMITTED BY THE LOOP (handed to parallelTasks.Enqueue) at some t' with
+        t <= t' <= t + 2*ArriveTimeout - GatherSlack + (k + 2)*lat.
+   What happens between Enqueue and the call of the requester function is the worker pool's business
+   (model/Workers.v, theorems C16_workers_...): Enqueue does not block while the pool's buffer has room and
+   a parked worker starts the oldest queued closure; a full buffer would block the loop, which is
+   excluded here by fair_run_k (no loop event is late).
    Suspension does not occur among the hypotheses: the [suspended] answer of the announcement is
    arbitrary and timer passes do not consult Suspend() at all (an [ETimer] event carries no such
    oracle), so the bound holds from the announcement whether or not the fetcher is suspended, hence
    a fortiori from max(t_announce, t_unsuspend) (C16_liveness_unsuspend). *)
-Theorem C16_liveness : forall c lat t0 pre t peer ids atime interested susp scan post id,
+Theorem C16_liveness : forall c lat k t0 pre t peer ids atime interested susp scan post id,
   cfg_wf c -> (c_slack c <= c_arrive c)%Z -> (0 <= lat)%Z ->
   let tr := pre ++ (t, ENotify peer ids atime interested susp scan) :: post in
-  let Tend := (t + 2 * c_arrive c - c_slack c + 2 * lat)%Z in
+  let Tend := (t + 2 * c_arrive c - c_slack c + (Z.of_nat k + 2) * lat)%Z in
   clock_ok t0 tr ->
-  fair_run c lat (init t0) t0 tr ->
+  fair_run_k c lat k (init t0) t0 0 tr ->
   In id interested ->
-  (N.of_nat (2 * announced_count tr) <= c_hash_limit c)%N ->
+  cap_ok c (init t0) tr ->
   (forall now p i a int su sc, In (now, ENotify p i a int su sc) tr -> In id int -> (Tend - a <= c_forget c)%Z) ->
   (forall now i ch sc, In (now, ETimer i ch sc) post -> In id i) ->
   (forall now l, In (now, EReceived l) post -> ~ In id l) ->
@@ -123,40 +129,19 @@ Proof. exact fetcher_liveness. Qed.
 
 (* "... or after the fetcher stops being suspended, whichever is later": for any moment t_u (the end of
    a suspension), the request comes no later than max(t, t_u) + the same bound. *)
-Theorem C16_liveness_unsuspend : forall c lat t0 pre t peer ids atime interested susp scan post id t_u,
+Theorem C16_liveness_unsuspend : forall c lat k t0 pre t peer ids atime interested susp scan post id t_u,
   cfg_wf c -> (c_slack c <= c_arrive c)%Z -> (0 <= lat)%Z ->
   let tr := pre ++ (t, ENotify peer ids atime interested susp scan) :: post in
-  let Tend := (t + 2 * c_arrive c - c_slack c + 2 * lat)%Z in
-  clock_ok t0 tr -> fair_run c lat (init t0) t0 tr -> In id interested ->
-  (N.of_nat (2 * announced_count tr) <= c_hash_limit c)%N ->
+  let Tend := (t + 2 * c_arrive c - c_slack c + (Z.of_nat k + 2) * lat)%Z in
+  clock_ok t0 tr -> fair_run_k c lat k (init t0) t0 0 tr -> In id interested ->
+  cap_ok c (init t0) tr ->
   (forall now p i a int su sc, In (now, ENotify p i a int su sc) tr -> In id int -> (Tend - a <= c_forget c)%Z) ->
   (forall now i ch sc, In (now, ETimer i ch sc) post -> In id i) ->
   (forall now l, In (now, EReceived l) post -> ~ In id l) ->
   (exists now ev, In (now, ev) post /\ (Tend < now)%Z) ->
   exists t' p l, In (t', (p, l)) (snd (run true c (init t0) tr)) /\ In id l /\
-    (t <= t' <= Z.max t t_u + 2 * c_arrive c - c_slack c + 2 * lat)%Z.
+    (t <= t' <= Z.max t t_u + 2 * c_arrive c - c_slack c + (Z.of_nat k + 2) * lat)%Z.
 Proof. exact fetcher_liveness_unsuspend. Qed.
-
-(* non-vacuity of (1) and (3): a reachable state with an announced, owed item and an armed timer *)
-Example C16_nonvacuous :
-  let c := cfg_ex in
-  let st := fst (step true c (fst (step true c (fst (step true c (init 0%Z) 0%Z ETick)) 0%Z (ETimer [] [] [])))
-                      80%Z (ENotify 1%N [7%N] 80%Z [7%N] true [])) in
-  cfg_wf c /\ keys_now st = [7%N] /\ timer_due st = Some 400%Z /\ owed c st 400%Z 7%N.
-Proof.
-  cbv zeta. split; [unfold cfg_wf, cfg_ex; cbn; split; discriminate|].
-  split; [vm_compute; reflexivity|]. split; [vm_compute; reflexivity|].
-  eexists _, _, _. split; [vm_compute; reflexivity|]. split; [reflexivity|]. split; [vm_compute; discriminate | exact I].
-Qed.
-
-(* non-vacuity of (7): a reachable state, a fair continuation on which the item stays held, and the
-   request it leads to *)
-Example C16_response_nonvacuous :
-  reachT cfg_ex 0%Z 80%Z ex_resp_state /\
-  fair_run cfg_ex 0%Z ex_resp_state 80%Z ex_resp_trace /\
-  held_until_pass cfg_ex 7%N ex_resp_state ex_resp_trace /\
-  snd (run true cfg_ex ex_resp_state ex_resp_trace) = [(400%Z, (1%N, [7%N]))].
-Proof. exact ex_resp_hyps. Qed.
 
 (* The scheduler that generates the model's own log of a script (model/FetcherSim.v, evaluated against
    spec_check on every case) is not a second model: the state it ends in is the state [run] reaches on
@@ -210,12 +195,13 @@ Theorem C16_workers_model_passes_check : forall cap n tr,
   wk_check (wk_runs (fst (wrun s0 tr)) (enq_ids tr)) (wk_enqs s0 tr) (wk_late s0 tr) = true.
 Proof. exact workers_model_passes_check. Qed.
 
-(* non-vacuity of C16_liveness: a concrete fair trace within capacity, and the requests it leads to *)
-Example C16_liveness_nonvacuous :
-  clock_ok 0%Z ex_live_trace /\ fair_run cfg_ex 0%Z (init 0%Z) 0%Z ex_live_trace /\
-  (N.of_nat (2 * announced_count ex_live_trace) <= c_hash_limit cfg_ex)%N /\
-  snd (run true cfg_ex (init 0%Z) ex_live_trace) = [(400, (1%N, [7%N])); (720, (1%N, [7%N]))]%Z.
-Proof. exact ex_live_hyps. Qed.
+(* non-vacuity of C16_liveness: the theorem APPLIED to a concrete trace with every hypothesis discharged
+   (item 7 announced while suspended; a notification of another item overtakes the pass once, k = 1) *)
+Example C16_liveness_applied :
+  exists t' p l,
+    In (t', (p, l)) (snd (run true cfg_ex (init 0%Z) (ex_live_pre ++ (80%Z, ENotify 1%N [7%N] 80%Z [7%N] true []) :: ex_live_post))) /\
+    In 7%N l /\ (80 <= t' <= 80 + 2 * 320 - 60 + (Z.of_nat 1 + 2) * 0)%Z.
+Proof. exact fetcher_liveness_applied. Qed.
 
 Print Assumptions C16_safety.
 Print Assumptions C16_liveness_pass_pending_partial.
